@@ -754,9 +754,9 @@ pub fn case(listeners: bool) -> BoxedStrategy<RedisCase> {
     prop_oneof![
         5 => (prop::option::weighted(0.55, rurl()), prop::option::weighted(0.4, conn()), prop::option::of(0u16..512))
             .prop_map(|(url, conn, max_size)| RedisCase::Standalone { url, conn, max_size }),
-        3 => (prop::option::weighted(0.55, prop::collection::vec(rurl(), 0..3)), prop::option::weighted(0.4, prop::collection::vec(conn(), 0..3)), any::<bool>())
+        3 => (prop::option::weighted(0.55, prop_oneof![8 => prop::collection::vec(rurl(), 0..3), 1 => prop::collection::vec(rurl(), 8..13)]), prop::option::weighted(0.4, prop_oneof![8 => prop::collection::vec(conn(), 0..3), 1 => prop::collection::vec(conn(), 8..13)]), any::<bool>())
             .prop_map(|(urls, conns, read_from_replicas)| RedisCase::Cluster { urls, conns, read_from_replicas }),
-        3 => (prop::option::weighted(0.55, prop::collection::vec(rurl(), 0..3)), prop::option::weighted(0.4, prop::collection::vec(conn(), 0..3)), word(), any::<bool>(), prop::option::of(node()))
+        3 => (prop::option::weighted(0.55, prop_oneof![8 => prop::collection::vec(rurl(), 0..3), 1 => prop::collection::vec(rurl(), 8..13)]), prop::option::weighted(0.4, prop_oneof![8 => prop::collection::vec(conn(), 0..3), 1 => prop::collection::vec(conn(), 8..13)]), word(), any::<bool>(), prop::option::of(node()))
             .prop_map(|(urls, conns, master, replica, node)| RedisCase::Sentinel { urls, conns, master, replica, node }),
         3 => (conn(), any::<bool>()).prop_map(|(conn, from_redis)| RedisCase::RoundTrip { conn, from_redis }),
         1 => (node(), any::<bool>()).prop_map(|(node, from_redis)| RedisCase::NodeRoundTrip { node, from_redis }),
